@@ -606,9 +606,7 @@ pub fn sized_case<P: Pay + Default>(ctor: usize, st: &mut CtStats) -> R {
 pub fn copy_cases(n: usize, st: &mut CtStats) -> R {
     shadow::reset();
     let v: Vec<u32> = (0..n as u32).map(|k| k.wrapping_mul(2654435761)).collect();
-    let s: String = (0..n)
-        .map(|k| char::from_u32(0x61 + (k as u32 % 26)).unwrap())
-        .collect();
+    let s: String = (0..n).map(|k| ['a', 'é', 'z', '∂', '日', 'q', '😀', 'b'][k % 8]).collect();
     let what = format!("copy/str len={}", n);
     let a: Arc<[u32]> = shadow::tracked(|| Arc::from(&v[..]));
     ensure!(
